@@ -84,30 +84,46 @@ def run_case(rep, lang, files, q, want, work, tag):
     return len(exp)
 
 
-def run(ctx):
+def run_lang(ctx, lang, per_file):
     rep = new_report(); rep['_nt'] = set()
-    work = ctx.workdir()
+    work = os.path.join(ctx.workdir(), lang)
+    os.makedirs(work, exist_ok=True)
+    files = {}
+    for name, text in common.corpus(lang)[: (14 if ctx.thorough else 6)]:
+        if 'ast-grep-ignore' in text:
+            continue
+        base = os.path.splitext(name)[0]
+        files[f'{base}.{EXT[lang]}'] = text
+    d = os.path.join(work, 'src')
+    shutil.rmtree(d, ignore_errors=True)
+    common.write_tree(d, files)
+    ex = expect(lang, files, ctx.seed, per_file)
+    for i, (q, want) in enumerate(zip(ex['queries'], ex['expected'])):
+        run_case(rep, lang, files, q, want, work, f'{lang}-{i}')
+    count(rep, f'lang.{lang}', len(ex['queries']))
+    if ex['queries']:
+        rep['samples'].append({'lang': lang, 'query': ex['queries'][0], 'files': len(files)})
+    return rep
+
+
+def run(ctx):
+    import concurrent.futures as cf
+    rep = new_report(); nt = set()
+    ctx.workdir()
     langs = sorted(EXT)
-    ctx.rng.shuffle(langs)
-    langs = langs if ctx.thorough else langs[:8]
-    per_file = 6 if ctx.thorough else 2
-    for lang in langs:
-        files = {}
-        for name, text in common.corpus(lang)[: (14 if ctx.thorough else 6)]:
-            if 'ast-grep-ignore' in text:
-                continue
-            base = os.path.splitext(name)[0]
-            files[f'{base}.{EXT[lang]}'] = text
-        d = os.path.join(work, 'src')
-        shutil.rmtree(d, ignore_errors=True)
-        common.write_tree(d, files)
-        ex = expect(lang, files, ctx.seed, per_file)
-        for i, (q, want) in enumerate(zip(ex['queries'], ex['expected'])):
-            run_case(rep, lang, files, q, want, work, f'{lang}-{i}')
-        count(rep, f'lang.{lang}', len(ex['queries']))
-        if len(rep['samples']) < 4 and ex['queries']:
-            rep['samples'].append({'lang': lang, 'query': ex['queries'][0], 'files': len(files)})
-    rep['distinct_nontrivial'] = len(rep.pop('_nt'))
+    per_file = 6 if ctx.thorough else 3
+    with cf.ThreadPoolExecutor(max_workers=common.NCPU) as ex:
+        subs = list(ex.map(lambda l: run_lang(ctx, l, per_file), langs))
+    for sub in subs:
+        nt |= sub.pop('_nt')
+        rep['evaluations'] += sub['evaluations']
+        for kk, v in sub['counters'].items():
+            count(rep, kk, v)
+        for v in sub['violations']:
+            add_violation(rep, v['signature'], v['what'], v['replay'])
+        if len(rep['samples']) < 4:
+            rep['samples'] += sub['samples'][:1]
+    rep['distinct_nontrivial'] = len(nt)
     ctx.cleanup()
     return rep
 
